@@ -177,4 +177,31 @@ def fltJudge (kind mode : String) (impl : String) : String :=
       else s!"fail:accepted:{kind} an I/O error ({mode}) was not reported, end={endB} after {eb.length} entries"
     | _ => s!"fail:driver:unparsable observation {impl.take 60}"
 
+/-- `max_ammo_size` (round 4): the file was read without the option (`a=<n>/<end>`) and with it (`b=…`); `lens` = the lengths
+of the lines of the file. Never a crash; for grpc/json: a size every line fits in (or 0 = the default) changes nothing, a
+negative size is refused with an error before anything is delivered, a line that certainly does not fit (the exact
+boundary is bufio's: 8 bytes of margin) ends the run with an error after at most the lines in front of it. -/
+def masJudge (kind fmt : String) (mas : Int) (lens : List Int) (impl : String) : String :=
+  match crashVerdict kind impl with
+  | some v => v
+  | none =>
+    let a := kvOf impl "a"
+    let b := kvOf impl "b"
+    let longest := lens.foldl max 0
+    let nB := ((b.splitOn "/").headD "").toNat?.getD 0
+    if a == "" || b == "" then s!"fail:driver:observation without a= and b=: {impl.take 60}"
+    else if fmt != "grpcjson" then "ok"
+    else if mas == 0 || (mas > 0 && longest + 8 ≤ mas) then
+      if a == b then "ok"
+      else s!"fail:outcome:{kind} a size every line fits in changed the run: {a} without it, {b} with it"
+    else if mas < 0 then
+      if nB == 0 && containsSub b "/err" then "ok"
+      else s!"fail:accepted:{kind} a negative size was accepted: {b}"
+    else
+      match lens.findIdx? (fun l => l > mas + 8) with
+      | some i =>
+        if containsSub b "/err" && nB ≤ i then "ok"
+        else s!"fail:accepted:{kind} line {i + 1} is longer than max_ammo_size and the run ended with {b}"
+      | none => "ok"
+
 end Pandora.Spec.C13
